@@ -2112,4 +2112,12 @@ theorem scanPhase_tcp (cfg : Cfg) (now : Nat) (r0 : Reader.Reader) (s : State) (
   · cases h; exact absurd rfl hnp
 
 
+/-- the prepared RR of every row of the decision table is well formed in the sense of `RrWF` as soon
+    as the key name is in lower case (it is a `LowercaseName`) -/
+theorem prepOf_wf (kn : WName) (r : ReadTsigRr) (nowT : TimeSigned) (e : Nat)
+    (hl : ∀ l ∈ kn.labels, l.map Spec.Tsig.lower = l) (he : e < 65536) : RrWF (prepOf kn r nowT e) := by
+  refine ⟨hl, ?_, rfl, (by show 300 < 65536; omega), UInt16.toNat_lt _, he⟩
+  show (if e = 18 then _ else _ : List UInt8).length = 6
+  split <;> rfl
+
 end QV.ServerTsig
